@@ -21,6 +21,8 @@ type VGhost struct {
 	Reti  uint8          // calls of RETIHandler.RETIHandle
 	Log   [256]uint32    // ordered log of the bus/port accesses (ring buffer), used only
 	LogN  uint8          // by the relational DD/FD obligations of C11 (sequence, not bag)
+
+	Stepped bool // (*CPU).Step has been called (set by the call rule; used by Run's contract)
 }
 
 // VState is the complete abstract machine state.
